@@ -286,4 +286,116 @@ def nontrivial_memchr(op, kv):
 
 def gen_c01(tier, rng): return gen_memchr("find", tier, rng)
 def gen_c02(tier, rng): return gen_memchr("rfind", tier, rng)
-def gen_c07(tier, rng): return gen_memchr("count", tier, rng)
+def gen_c07(tier, rng):
+    # one-shot counts plus count() on partially consumed iterators (histories that contain C)
+    its = [c for c in gen_iter(tier, rng) if "C" in c.split("ops=")[1]]
+    extra = []
+    for j in range(120 if tier == "quick" else 1500):
+        be0 = BACKENDS_X86[j % len(BACKENDS_X86)]
+        be = be0.split(":")[0]
+        cpu = (" cpu=" + be0.split(":")[1]) if ":" in be0 else ""
+        n = rng.randrange(20, 260)
+        dens = rng.choice([1, 2, 3, 5, 9])
+        h = bytes((0x61 if i % dens == 0 else 0x78) for i in range(n))
+        nm = (n + dens - 1) // dens
+        pre = "".join(rng.choice("NB") for _ in range(rng.randrange(0, min(nm, 25) + 1)))
+        extra.append(f"iter be={be}{cpu} ns=61 a={rng.randrange(64)} h={hexs(h)} ops={pre}C{rng.choice(['', 'NC', 'BC', 'NBC'])}")
+    return gen_memchr("count", tier, rng) + its + extra
+
+def oracle_c07(op, kv, res, trace, flags):
+    return oracle_iter(op, kv, res, trace, flags) if op == "iter" else oracle_memchr(op, kv, res, trace, flags)
+
+def nontrivial_c07(op, kv):
+    return nontrivial_iter(op, kv) if op == "iter" else nontrivial_memchr(op, kv)
+
+# --------------------------------------------------------------------------
+# C06 (and the iterator part of C07): iterator histories
+# --------------------------------------------------------------------------
+def all_strings(alphabet, maxlen):
+    out = [""]
+    frontier = [""]
+    for _ in range(maxlen):
+        frontier = [s + c for s in frontier for c in alphabet]
+        out += frontier
+    return out
+
+def gen_iter(tier, rng, backends=BACKENDS_X86, with_count=True):
+    cases = []
+    quick = tier == "quick"
+    nmax = 6 if quick else 9
+    k = 0
+    # exhaustive: every match set of every short haystack, every N/B history up to matches + 2 calls
+    for n in range(0, nmax + 1):
+        for mask in range(1 << n):
+            m = bin(mask).count("1")
+            h = bytes((0x61 if (mask >> i) & 1 else 0x78) for i in range(n))
+            hist = all_strings("NB", m + 2)
+            if quick:
+                hist = [s for s in hist if len(s) >= m] or hist
+            be0 = backends[k % len(backends)]; k += 1
+            be = be0.split(":")[0]
+            cpu = (" cpu=" + be0.split(":")[1]) if ":" in be0 else ""
+            for ops in hist:
+                cases.append(f"iter be={be}{cpu} ns=61 a={(k * 5) % 64} h={hexs(h)} ops={ops or 'S'}")
+    # long haystacks: ends meeting inside one vector, sparse and dense matches, S and C interleaved
+    nl = 250 if quick else 3000
+    for j in range(nl):
+        be0 = backends[j % len(backends)]
+        be = be0.split(":")[0]
+        cpu = (" cpu=" + be0.split(":")[1]) if ":" in be0 else ""
+        ar = 1 if j % 3 == 0 else rng.choice([1, 2, 3])
+        ns = [[0x61], [0x61, 0x00], [0xFF, 0x80, 0x61]][ar - 1]
+        n = rng.choice([rng.randrange(16, 40), rng.randrange(32, 100), rng.randrange(64, 200)])
+        dens = rng.choice([1, 2, 3, 7, 16, 40, 1000])
+        h = bytearray([0x78]) * n
+        if dens == 1:
+            h = bytearray(ns[i % ar] for i in range(n))
+        else:
+            for _ in range(max(1, n // dens)):
+                h[rng.randrange(n)] = rng.choice(ns)
+        if j % 7 == 0:    # exactly two matches inside one vector-sized window
+            h = bytearray([0x78]) * n
+            p0 = rng.randrange(0, n - 3)
+            h[p0] = ns[0]; h[p0 + rng.randrange(1, 3)] = ns[-1]
+        nm = sum(1 for x in h if x in ns)
+        alphabet = "NB" + ("S" if j % 2 else "") + ("C" if (ar == 1 and with_count and j % 4 < 2) else "")
+        L = min(nm + 3, 40)
+        ops = "".join(rng.choice(alphabet) for _ in range(L))
+        if j % 5 == 0:
+            ops = "".join(rng.choice("NB") for _ in range(min(nm, 30))) + "NBNB"
+        cases.append(f"iter be={be}{cpu} ns={hexs(bytes(ns))} a={rng.randrange(64)} h={hexs(bytes(h))} ops={ops}")
+    return cases
+
+def oracle_iter(op, kv, res, trace, flags):
+    ns = bytes.fromhex(kv["ns"]); h = bytes.fromhex(kv.get("h", ""))
+    dq = [i for i, b in enumerate(h) if b in ns]
+    ops = kv.get("ops", "")
+    outs = res.split(";") if res != "-" else []
+    if res.startswith("Panic") or res.startswith("CRASH"):
+        return f"iterator history {ops} ended in {res}"
+    if len(outs) != len(ops):
+        return f"iterator history {ops}: {len(outs)} outputs"
+    for j, (o, r) in enumerate(zip(ops, outs)):
+        if o == "N":
+            want = f"Some({dq.pop(0)})" if dq else "None"
+            if r != want:
+                return f"next() at step {j} of {ops} returned {r}, expected {want}"
+        elif o == "B":
+            want = f"Some({dq.pop()})" if dq else "None"
+            if r != want:
+                return f"next_back() at step {j} of {ops} returned {r}, expected {want}"
+        elif o == "S":
+            lo, hi = r.split("-")
+            if not (int(lo) <= len(dq) and (hi == "inf" or len(dq) <= int(hi))):
+                return f"size_hint() at step {j} of {ops} returned ({lo},{hi}) with {len(dq)} matches still to come"
+        elif o == "C":
+            if r != str(len(dq)):
+                return f"count() at step {j} of {ops} returned {r}, {len(dq)} matches not yet yielded"
+    if flags:
+        return f"iterator load outside the haystack or misaligned: {flags}"
+    return None
+
+def nontrivial_iter(op, kv):
+    return len(kv.get("ops", "")) >= 2 and len(kv.get("h", "")) >= 4
+
+def gen_c06(tier, rng): return gen_iter(tier, rng)
